@@ -90,6 +90,13 @@ pub fn run_model<M: Model>(rep: &mut Report, m: &M, caps: &Caps, seed: u64) {
     rep.explorations.push(o);
 }
 
+fn maybe_replay_active() -> bool {
+    REPLAY.get().is_some()
+}
+fn bfs_replay_inactive() -> bool {
+    REPLAY.get().is_none()
+}
+
 pub fn summary(o: &Outcome) -> String {
     format!(
         "{}: states={} transitions={} depth={} exhaustive={} cap={:?} viol={:?} {:.2}s",
@@ -324,6 +331,33 @@ pub fn c06(rep: &mut Report, tier: &str, seed: u64, prop: &'static str) {
             rep.required.push((name, "flush_calls_with_output".into()));
         }
     }
+    if prop == "C15" {
+        // help listing / command help / parse errors / handler errors in plain and grouped command sets
+        let events = vec![
+            ch('a'),
+            ch(' '),
+            ch('-'),
+            ch('h'),
+            k(Key::Bs),
+            k(Key::Left),
+            k(Key::Up),
+            k(Key::Tab),
+            kh(Key::Lf, HMode::Write("o")),
+            kh(Key::Lf, HMode::ParseErr),
+            kh(Key::Lf, HMode::Prompt("é> ")),
+            wr("x"),
+            Ev::SetPrompt("$ "),
+        ];
+        let (cb, hb) = if tier == "quick" { (4, 0) } else { (6, 3) };
+        let mut cfg = base_cfg(prop, format!("help and error output cb={} hb={} command group", cb, hb), cb, hb, events.clone(), mon.clone());
+        cfg.names = grp_names();
+        let m = SessModel::<Grp<'static>>::new(cfg);
+        run_model(rep, &m, &caps, seed);
+        let mut cfg = base_cfg(prop, format!("help and error output cb={} hb={} plain enum", cb, hb), cb, hb, events, mon.clone());
+        cfg.names = plain_a_names();
+        let m = SessModel::<PlainA<'static>>::new(cfg);
+        run_model(rep, &m, &caps, seed);
+    }
     // byte-granular: API calls land between ESC and [ and inside a multi-byte character
     let raw = |b: u8| k(Key::Raw(b));
     let alphabet = vec![
@@ -520,6 +554,50 @@ pub fn c03(rep: &mut Report, tier: &str, seed: u64) {
         cfg.poison = quick;
         run_cmd4(rep, cfg, &dcaps, seed);
     }
+    // (3b) every pair of buffer sizes: shallow search from the initial and pre-filled states, aggregated
+    let sizes_cb: Vec<usize> = if quick { vec![0, 1, 2, 3, 4, 5, 6, 7, 8, 9, 15, 16, 17, 31, 32, 33, 63, 64] } else { (0..=64).collect() };
+    let sizes_hb: Vec<usize> = if quick { vec![0, 1, 2, 3, 4, 7, 8, 9, 16, 63, 64] } else { (0..=64).collect() };
+    if maybe_replay_active() {
+        // individual grid members are replayable by name below
+    }
+    let mut agg = Outcome { name: format!("no-panic buffer-size grid {}x{} cmd4 (depth 3 from pre-filled starts)", sizes_cb.len(), sizes_hb.len()), exhaustive: false, ..Default::default() };
+    let mut gcaps = caps.clone();
+    gcaps.max_depth = 3;
+    let grid_alpha = vec![ch('a'), ch('𝄞'), ch(' '), k(Key::Bs), k(Key::Left), k(Key::Up), k(Key::Down), k(Key::Tab), k(Key::Lf), wr("x")];
+    for &cb in &sizes_cb {
+        for &hb in &sizes_hb {
+            let mut cfg = base_cfg("C03", format!("no-panic grid cb={} hb={} cmd4", cb, hb), cb, hb, grid_alpha.clone(), mon.clone());
+            cfg.prefilled = prefilled_states(cb, hb);
+            cfg.names = cmd4_names();
+            let m = SessModel::<Cmd4>::new(cfg);
+            if let Some(o) = maybe_replay(&m) {
+                if !o.name.is_empty() {
+                    rep.explorations.push(o);
+                }
+                continue;
+            }
+            let o = explore(&m, &gcaps, seed);
+            agg.states += o.states;
+            agg.transitions += o.transitions;
+            agg.changing_transitions += o.changing_transitions;
+            agg.depth_completed = agg.depth_completed.max(o.depth_completed);
+            agg.wall_s += o.wall_s;
+            agg.alphabet = o.alphabet;
+            agg.stats.merge(&o.stats);
+            if !o.viol_counts.is_empty() {
+                // keep the member's own name so that the replay file points at a concrete configuration
+                eprintln!("  {}", summary(&o));
+                rep.explorations.push(o);
+            } else if agg.samples.len() < 3 {
+                agg.samples.extend(o.samples.into_iter().take(1));
+            }
+        }
+    }
+    agg.cap_hit = Some("depth cap 3 (by design)".into());
+    if bfs_replay_inactive() {
+        eprintln!("  {}", summary(&agg));
+        rep.explorations.push(agg);
+    }
     // (4) deprecated constructor
     let mut cfg = base_cfg("C03", "no-panic deprecated Cli::new cb=2 hb=3 cmd4".to_string(), 2, 3, reduced.clone(), mon.clone());
     cfg.deprecated_ctor = true;
@@ -594,7 +672,11 @@ pub fn c14(rep: &mut Report, tier: &str, seed: u64) {
         Ev::SetPrompt("$ "),
     ];
     let events: Vec<Ev> = if quick { events.into_iter().filter(|e| *e != ch('"')).collect() } else { events };
-    let cfgs: Vec<(usize, usize, usize)> = if quick { vec![(4, 2, 0)] } else { vec![(4, 3, 3), (5, 4, 4), (6, 0, 0)] };
+    let cfgs: Vec<(usize, usize, usize)> = if quick { vec![(4, 2, 0)] } else { vec![(4, 3, 2), (5, 0, 0), (6, 0, 0)] };
+    let mut caps = caps;
+    if !quick {
+        caps.max_wall_s = 600.0;
+    }
     for (cb, hb, hb_grp) in cfgs {
         // plain enum
         let mut cfg = base_cfg("C14", format!("fault sessions cb={} hb={} plain enum", cb, hb), cb, hb, events.clone(), mon.clone());
